@@ -50,3 +50,5 @@ INVARIANTS
   J_InstFresh
   J_CrashKept
   J_DepsConsistent
+  J_PruneKeepsRestore
+  J_PruneIdempotent
